@@ -1091,11 +1091,11 @@ write_object_info (const gchar  *namespace,
 
   func = g_object_info_get_unref_function (info);
   if (func)
-    xml_printf (file, " glib:unref-function=\"%s\"", func);
+    xml_printf (file, " glib:unref-func=\"%s\"", func);
 
   func = g_object_info_get_ref_function (info);
   if (func)
-    xml_printf (file, " glib:ref-function=\"%s\"", func);
+    xml_printf (file, " glib:ref-func=\"%s\"", func);
 
   func = g_object_info_get_set_value_function (info);
   if (func)
